@@ -594,7 +594,9 @@ func (w *kqueue) watchDirectoryFiles(dirPath string) error {
 			// as a "new" file later (it still shows up in the directory
 			// listing).
 			switch {
-			case errors.Is(err, unix.EACCES) || errors.Is(err, unix.EPERM):
+			// Same for entries that cannot be opened because they no longer
+			// exist or are a dangling symlink (dirChange() skips those too).
+			case errors.Is(err, unix.EACCES) || errors.Is(err, unix.EPERM) || errors.Is(err, os.ErrNotExist):
 				cleanPath = filepath.Clean(path)
 			default:
 				return fmt.Errorf("%q: %w", path, err)
